@@ -103,3 +103,20 @@ func TestRegressChunkListingPages(t *testing.T) {
 		Pre:   ops, Chunk: 1, Parallel: 8,
 	})
 }
+
+// Blobs right at the index time T (set by the harness as an outside party after the build returned T):
+// unreferenced blobs updated at T+1ns, T+1us, T+999us, T+1ms must be kept, those at T, T-1ns, T-1ms must go;
+// and the blobs of an upload made after the index, re-stamped to T+1ns / T+500us, must be kept.
+func TestRegressIndexTimeBoundary(t *testing.T) {
+	for _, real := range []int64{0, 1, 500_000} {
+		pinned(t, "", "", caseT{
+			Shape: purgex.Shape{Repos: []int{1}, Leaves: []uint32{1024}},
+			Pre:   []purgex.Op{up(0, file("a", 0, 0, 1, 2), file("b", 300, 1)), up(0, file("c", 1, 0, 1)), {Kind: purgex.OpDelBundle, Repo: 0, Pick: 0}},
+			Chunk: 3, Parallel: 2,
+			Between:      []purgex.Op{up(0, file("n", 7, 2, 2), file("o", 1))},
+			Boundary:     []int64{1, 1000, 999_000, 999_999, 1_000_000, 0, -1, -1000, -1_000_000},
+			BoundaryReal: real,
+			DryRun:       real == 1,
+		})
+	}
+}
